@@ -622,7 +622,7 @@ func analyse(c *gen.Case, r *ref.Result, storeSlow, loadSlow, prefSlow bool) *an
 							a.shadowBranchSlow = true
 							sawShadowBranch = true
 						}
-						if in.Op == "ret" && slow[i] && (sawShadowBranch || recentCondBr(tr, i, 8)) {
+						if in.Op == "ret" && slow[i] && (sawShadowBranch || recentCondBr(tr, i, 8) || pendingSlowCondBr(tr, slow, i)) {
 							// a ret is held while a conditional branch is pending, but the
 							// single flag is cleared by whichever branch resolves first: with
 							// another conditional branch in flight around the slow one, a
@@ -664,6 +664,22 @@ func analyse(c *gen.Case, r *ref.Result, storeSlow, loadSlow, prefSlow bool) *an
 func recentCondBr(tr []ref.Step, i, n int) bool {
 	for k := i - 1; k >= 0 && k >= i-n; k-- {
 		if tr[k].CondBr {
+			return true
+		}
+	}
+	return false
+}
+
+// pendingSlowCondBr: an older conditional branch that was itself slow and not
+// taken (no flush since), anywhere between the last taken branch and step i:
+// it can still be waiting for its operand when the branch at step i is issued,
+// and when it resolves it clears the single flag that holds a ret back.
+func pendingSlowCondBr(tr []ref.Step, slow []bool, i int) bool {
+	for k := i - 1; k >= 0; k-- {
+		if tr[k].CondBr && tr[k].Taken {
+			return false
+		}
+		if tr[k].CondBr && slow[k] {
 			return true
 		}
 	}
